@@ -8,6 +8,7 @@ import (
 	"fmt"
 	"math"
 	"math/rand"
+	"strings"
 
 	"verif/harness/ast"
 )
@@ -433,6 +434,57 @@ func (u *Universe) Rule(r *rand.Rand, o RuleOpts) ast.Rule {
 	}
 }
 
+// TwinRule returns a rule with the SAME head and body as rl but another expression filter
+// (two rules that differ only by their expressions are different rules).
+func (u *Universe) TwinRule(r *rand.Rand, rl ast.Rule) (ast.Rule, bool) {
+	vars := []tvar{}
+	seen := map[string]bool{}
+	for _, b := range rl.Body {
+		for _, t := range b.Terms {
+			if t.K != ast.KVar || seen[t.S] {
+				continue
+			}
+			seen[t.S] = true
+			var c Col
+			switch {
+			case strings.HasPrefix(t.S, "ts"):
+				c = cSS
+			case strings.HasPrefix(t.S, "ti"):
+				c = cSI
+			case strings.HasPrefix(t.S, "s"):
+				c = cS
+			case strings.HasPrefix(t.S, "i"):
+				c = cI
+			case strings.HasPrefix(t.S, "d"):
+				c = cD
+			case strings.HasPrefix(t.S, "b"):
+				c = cB
+			case strings.HasPrefix(t.S, "y"):
+				c = cY
+			default:
+				continue
+			}
+			vars = append(vars, tvar{t.S, c})
+		}
+	}
+	if len(vars) == 0 || len(rl.Body) == 0 {
+		return ast.Rule{}, false
+	}
+	for tries := 0; tries < 6; tries++ {
+		e := u.BoolExpr(r, vars)
+		same := false
+		for _, old := range rl.Exprs {
+			if old.Key() == e.Key() {
+				same = true
+			}
+		}
+		if !same {
+			return ast.Rule{Head: rl.Head, Body: rl.Body, Exprs: []ast.Expr{e}}, true
+		}
+	}
+	return ast.Rule{}, false
+}
+
 // Query generates a check / policy query (head "query()").
 func (u *Universe) Query(r *rand.Rand, o RuleOpts) ast.Rule {
 	body, exprs, _ := u.Body(r, o)
@@ -597,6 +649,21 @@ func NewScenario(r *rand.Rand, maxBlocks int, o BlockOpts) *Scenario {
 		s.Blocks = append(s.Blocks, b)
 	}
 	s.Auth = u.Auth(r, o, 3)
+	// twin rules: same head and body, different expression filter (one scenario in three)
+	if r.Intn(3) == 0 {
+		for i := range s.Blocks {
+			if len(s.Blocks[i].Rules) > 0 {
+				if tw, ok := u.TwinRule(r, Pick(r, s.Blocks[i].Rules)); ok {
+					s.Blocks[i].Rules = append(s.Blocks[i].Rules, tw)
+				}
+			}
+		}
+		if len(s.Auth.Rules) > 0 {
+			if tw, ok := u.TwinRule(r, Pick(r, s.Auth.Rules)); ok {
+				s.Auth.Rules = append(s.Auth.Rules, tw)
+			}
+		}
+	}
 	known = append(known, s.Auth.Facts...)
 	// re-draw checks and policies so that a good share of them is satisfiable
 	for i := range s.Blocks {
